@@ -54,6 +54,9 @@ CONFIGS: dict[str, dict[str, Any]] = {
                                     "options": {"seed": 3, "popsize": 2, "maxiter": 1, "tol": 0.0}}},
     "slsqp-too-few": {"optimizer": {"method": "slsqp", "options": {"maxiter": 4}}, "_fail": "one-at-2"},
     "slsqp-user-abort": {"optimizer": {"method": "slsqp", "options": {"maxiter": 4}}, "_abort_at_start": 2},
+    "slsqp-explicit-start": {"optimizer": {"method": "slsqp", "options": {"maxiter": 3}}, "_start": [0.9, 0.4, -0.7]},
+    "de-explicit-start-masked": {"optimizer": {"method": "differential_evolution", "options": {"seed": 5, "popsize": 2, "maxiter": 1, "tol": 0.0}},
+                                 "variables": {"mask": [True, True, False]}, "_start": [-0.5, 0.25, 1.1]},
 }
 
 
@@ -176,8 +179,9 @@ def run_config(name: str, external: bool, kill: tuple[Any, ...] | None = None, r
     plan = Plan(ctx)
     step = plan.add_step("optimizer")
     out: dict[str, Any] = {"exc": None, "code": None, "hang": False}
+    start = CONFIGS[name].get("_start")
     try:
-        out["code"] = plan.run_step(step, config=cfg)
+        out["code"] = plan.run_step(step, config=cfg, variables=None if start is None else np.array(start))
     except HangError:
         out["hang"] = True
     except HarnessError:
@@ -207,9 +211,88 @@ def run_config(name: str, external: bool, kill: tuple[Any, ...] | None = None, r
     return out
 
 
+STAND_IN = r"""#!/venv/bin/python
+import json, os, signal, sys, time
+fifo_read, fifo_write, die_after, mode = sys.argv[1], sys.argv[2], int(os.environ["STANDIN_DIE_AFTER"]), os.environ["STANDIN_MODE"]
+rfd = os.open(fifo_read, os.O_RDONLY | os.O_NONBLOCK)
+wfd = None
+def send(obj):
+    global wfd
+    while wfd is None:
+        try:
+            wfd = os.open(fifo_write, os.O_WRONLY | os.O_NONBLOCK)
+        except OSError:
+            time.sleep(0.01)
+    os.write(wfd, (json.dumps(obj) + "\n--READY--\n").encode())
+def receive():
+    buf = b""
+    while b"--READY--" not in buf:
+        try:
+            chunk = os.read(rfd, 65536)
+        except BlockingIOError:
+            chunk = b""
+        if not chunk:
+            time.sleep(0.005)
+        buf += chunk
+requests = ["config", "initial_values"]
+for k, request in enumerate(requests, start=1):
+    send(request)
+    if k == die_after and mode == "after-request":
+        os.kill(os.getpid(), signal.SIGKILL)
+    receive()
+    if k == die_after and mode == "after-answer":
+        os.kill(os.getpid(), signal.SIGKILL)
+os.kill(os.getpid(), signal.SIGKILL)
+"""
+
+
+def run_standin(case: dict[str, Any]) -> dict[str, Any]:
+    """The optimizer process dies after k exchanged messages, before any evaluation (stand-in child that follows the protocol)."""
+    import tempfile
+
+    cfg, ev, _ = build("slsqp", True)
+    with tempfile.TemporaryDirectory() as tmp:
+        script = os.path.join(tmp, "ropt_plugin_optimizer")
+        with open(script, "w") as fh:
+            fh.write(STAND_IN)
+        os.chmod(script, 0o755)  # noqa: S103
+        old_path = os.environ["PATH"]
+        os.environ.update({"PATH": tmp + os.pathsep + old_path, "STANDIN_DIE_AFTER": str(case["at"]), "STANDIN_MODE": case["mode"]})
+        ctx = OptimizerContext(evaluator=ev)
+        plan = Plan(ctx)
+        step = plan.add_step("optimizer")
+        out: dict[str, Any] = {"exc": None, "code": None, "hang": False}
+        signal.signal(signal.SIGALRM, _alarm)
+        signal.alarm(30)
+        try:
+            out["code"] = plan.run_step(step, config=cfg)
+        except HangError:
+            out["hang"] = True
+        except Exception as exc:  # noqa: BLE001
+            out["exc"] = exc
+        finally:
+            signal.alarm(0)
+            os.environ["PATH"] = old_path
+    check(not out["hang"], "hang", f"the optimizer process died after {case['at']} exchanged message(s) ({case['mode']}) and the step "
+          "did not return within 30 s", case)
+    check(out["exc"] is not None or out["code"] != OptimizerExitCode.OPTIMIZER_STEP_FINISHED, "death-reported-as-success",
+          f"the optimizer process died after {case['at']} exchanged message(s) but the step returned {out['code']!r}", case)
+    check(len(ev.calls) == 0, "harness", "stand-in child never asks for evaluations", case)
+    leftover = child_pids()
+    for pid in leftover:
+        try:
+            os.kill(pid, signal.SIGKILL)
+        except OSError:
+            pass
+    check(not leftover, "child-left-running", f"process {leftover} still running", case)
+    return {"calls": 0, "code": out["code"], "exc": type(out["exc"]).__name__ if out["exc"] else None}
+
+
 def run_case(case: dict[str, Any]) -> dict[str, Any]:
     name = case["config"]
     kind = case["kind"]
+    if kind == "standin":
+        return run_standin(case)
     if kind == "equal":
         a = run_config(name, False)
         b = run_config(name, True)
@@ -264,6 +347,9 @@ def run_shard(item: dict[str, Any]) -> Collector:
 
 def shards(tier: str, seed: int) -> list[dict[str, Any]]:  # noqa: ARG001
     items: list[dict[str, Any]] = [{"kind": "equal", "config": name} for name in CONFIGS]
+    for at in (1, 2):
+        for mode in ("after-request", "after-answer"):
+            items.extend({"kind": "standin", "config": "slsqp", "at": at, "mode": mode, "try": t} for t in range(2 if tier == "quick" else 6))
     kill_cfgs = ["slsqp"] if tier == "quick" else ["slsqp", "slsqp-constrained-masked", "nelder-mead-budget", "de-vectorized"]
     points = range(3) if tier == "quick" else range(8)
     for name in kill_cfgs:
